@@ -85,6 +85,7 @@ type State struct {
 	ghost  map[string]Val
 	epoch  int // 0: heaps not in the map are the entry heaps; else forgotten by havoc #epoch
 	havocs int
+	pfx    map[string]int // package name -> epoch of the last "pkgheaps" havoc
 }
 
 func (s *State) clone() *State {
@@ -98,6 +99,12 @@ func (s *State) clone() *State {
 		n.heaps[k] = v
 	}
 	n.defers = append([]deferred(nil), s.defers...)
+	if s.pfx != nil {
+		n.pfx = make(map[string]int, len(s.pfx))
+		for k, v := range s.pfx {
+			n.pfx[k] = v
+		}
+	}
 	n.ghost = make(map[string]Val, len(s.ghost))
 	for k, v := range s.ghost {
 		n.ghost[k] = v
@@ -139,7 +146,13 @@ func (fr *Frame) heap(st *State, name, sort string) Term {
 	if h, ok := st.heaps[name]; ok {
 		return h
 	}
-	return fr.epochHeap(st.epoch, name, sort)
+	ep := st.epoch
+	for p, e := range st.pfx {
+		if e > ep && heapOfPkg(name, p) {
+			ep = e
+		}
+	}
+	return fr.epochHeap(ep, name, sort)
 }
 
 // epochHeap: the content of a heap that has not been touched since havoc/merge #epoch.
@@ -351,6 +364,29 @@ func (fr *Frame) mergeStates(sts []*State) *State {
 			}
 			fr.top.epochMerge[out.epoch] = parts
 			break
+		}
+	}
+	// package-heap havocs: a package havocked on some incoming path counts as havocked
+	for _, s := range sts {
+		for p, ep := range s.pfx {
+			if out.pfx == nil {
+				out.pfx = map[string]int{}
+			}
+			if cur, ok := out.pfx[p]; !ok || cur == ep {
+				out.pfx[p] = ep
+			} else {
+				fr.top.nepoch++
+				out.pfx[p] = fr.top.nepoch
+			}
+		}
+	}
+	for p := range out.pfx {
+		for _, s := range sts {
+			if _, ok := s.pfx[p]; !ok {
+				fr.top.nepoch++
+				out.pfx[p] = fr.top.nepoch
+				break
+			}
 		}
 	}
 	// cells
